@@ -346,20 +346,37 @@ class Interp:
                 parts.append(str(v.value))
             elif isinstance(v, ast.FormattedValue):
                 val = self.eval(v.value, env)
+                spec = self.eval(v.format_spec, env) if v.format_spec is not None else ""
                 if v.conversion == 114:
                     s = self.to_repr(val)
-                else:
-                    s = self.to_str(val)
-                if v.format_spec is not None:
-                    spec = self.eval(v.format_spec, env)
                     if spec:
-                        s = self.format_value(val, spec)
+                        s = format(s, spec)
+                elif v.conversion in (115, 97):
+                    s = self.to_str(val)
+                    if spec:
+                        s = format(s, spec)
+                else:
+                    # f"{val}" is format(val, ""), i.e. type(val).__format__(val, "") -- a class
+                    # defining __format__ is printed through it even without a format spec
+                    s = self.format_value(val, spec)
                 parts.append(s)
             else:
                 raise Unsupported("f-string part")
         return "".join(parts)
 
     def format_value(self, val, spec):
+        if isinstance(val, Obj):
+            fi = self.model.resolve_method(val.cls, "__format__")
+            if fi is not None:
+                r = self.call_function(fi, [val, spec], {})
+                if not isinstance(r, str):
+                    self.raise_builtin("TypeError", "__format__ must return a str")
+                return r
+            if spec:
+                self.raise_builtin("TypeError", "unsupported format string passed to object.__format__")
+            return self.to_str(val)
+        if not spec:
+            return self.to_str(val)
         if isinstance(val, SymNum) and val.conc is not None:
             return format(val.conc, spec)
         if isinstance(val, (int, float, str)):
